@@ -1,6 +1,7 @@
 (* C14 — Client-maintained referrers indexes lose no update under concurrency. *)
 From Oras Require Import Base.Prelude Generated.GC14 Model.Referrers Proofs.Referrers Model.Merge
-  Proofs.Merge Proofs.MergeLin Proofs.MergeThm Model.Delivery Proofs.Delivery Model.Live Proofs.Live.
+  Proofs.Merge Proofs.MergeLin Proofs.MergeThm Model.Delivery Proofs.Delivery Model.Live Proofs.Live
+  Model.MergeFine Proofs.MergeFine Proofs.MergeFine2 Proofs.MergeFine3.
 
 (* applyReferrerChanges (position map, tombstones, hint) = set semantics on the
    de-duplicated, non-empty old list; survivors keep their order, additions are
@@ -271,6 +272,48 @@ Theorem C14_delivery_refines_complete : forall s t r tr d,
 Proof. exact delivery_refines_complete. Qed.
 Print Assumptions C14_delivery_refines_complete.
 
+(* ---- the whole protocol at CHANNEL granularity (Model/MergeFine.v): buffered-1 status channels
+   per generation, main status in the buffer, close / blocking sends in complete(), late
+   receivers, the swap as a separate lock region - interleaved with everything else ---- *)
+
+(* in every reachable state: one main caller; the main status only in the current status
+   channel and only while nobody is main; every buffered status / closed channel carries
+   the verdict of its batch; the main caller in complete() knows that verdict; Pool refcount *)
+Theorem C14_fine_structure : forall sg r0 st0 ftr f,
+  frun sg (finit r0 st0) ftr = Some f ->
+  (forall t1 t2, fmain (f_pcs f t1) = true -> fmain (f_pcs f t2) = true -> t1 = t2) /\
+  (forall g, fbuf (f_chans f g) = Some FMain -> g = f_gen f /\ forall t, fmain (f_pcs f t) = false) /\
+  (forall g r, fbuf (f_chans f g) = Some (FRes r) -> f_verdict f g = Some r) /\
+  (forall g, fclosed (f_chans f g) = true -> f_verdict f g = Some ROk) /\
+  (forall t r, fres (f_pcs f t) = Some r -> f_verdict f (f_gen f) = Some r) /\
+  (exists hs, NoDup hs /\ (forall t, In t hs <-> fholding (f_pcs f t) = true) /\
+     match f_pool f with None => hs = [] | Some rc => rc = length hs /\ hs <> [] end).
+Proof. exact fine_structure. Qed.
+Print Assumptions C14_fine_structure.
+
+(* refinement: every run of the channel-level system is simulated by a run of the system of
+   Model/Merge.v (EComplete = the moment the main caller enters complete(); channel operations
+   and the swap stutter; a caller blocked on a channel whose batch has its verdict corresponds
+   to a caller that has returned): same Pool entry, registry cell and index manifests *)
+Theorem C14_fine_simulated : forall sg r0 st0 ftr f,
+  frun sg (finit r0 st0) ftr = Some f ->
+  exists tr c, run sg (init r0 st0) tr = Some c /\ Sim f c.
+Proof. exact fine_simulated. Qed.
+Print Assumptions C14_fine_simulated.
+
+(* hence no lost update and the listing theorem at channel granularity *)
+Theorem C14_fine_no_lost_update : forall sg r0 st0 ftr f,
+  frun sg (finit r0 st0) ftr = Some f -> fquiescent f ->
+  exists tr c, run sg (init r0 st0) tr = Some c /\ quiescent c /\
+    (forall t r, f_pcs f t = FDone r <-> pcs c t = Done r) /\
+    NoDup (lin c) /\
+    (forall t, In t (lin c) <-> exists r, f_pcs f t = FDone r /\ r <> RErr) /\
+    (forall k, memb (f_reg f) k = member_after k (memb r0 k) (map (arg c) (lin c))) /\
+    NoDup (keys (list_referrers (f_reg f) 0)) /\
+    (forall k, In k (keys (list_referrers (f_reg f) 0)) <-> member_after k (memb r0 k) (map (arg c) (lin c)) = true).
+Proof. exact fine_no_lost_update. Qed.
+Print Assumptions C14_fine_no_lost_update.
+
 (* ---- the hypotheses are satisfiable: concrete instances ---- *)
 Definition dA := mkDesc 1 7 0. Definition dB := mkDesc 2 0 3. Definition dC := mkDesc 3 0 0.
 
@@ -327,6 +370,19 @@ Example live_ex :
      LIdx (ERecvMain 2); LIdx (EPrepare 2 false); LIdx (ECommit 2); LIdx (EPut 2 false); LIdx (EDel 2 false);
      LIdx (EComplete 2); LIdx (EDone 2); LEnd 2]%nat with
   | Some m => l_inflight m = [] /\ l_taint m = [] /\ l_live m = [3; 2] /\ reg (l_s m) = Some [dB; dC]
+  | None => False
+  end.
+Proof. vm_compute. repeat split. Qed.
+
+(* channel level, error path with a late receiver: caller 1 receives its status after the main
+   caller 0 has swapped and caller 2 has become the main caller of the next batch *)
+Example fine_ex :
+  match frun false (finit None [])
+    [FEGet 0 (Add dA); FEAssign 0; FERecv 0; FEGet 1 (Add dB); FEAssign 1; FEPrepare 0 false; FECommit 0;
+     FEGet 2 (Add dC); FEAssign 2; FEPut 0 true; FENotify 0; FENotify 0; FESwap 0; FERecv 2; FERecv 1;
+     FEDone 0; FEDone 1; FEPrepare 2 false; FECommit 2; FEPut 2 false; FENotify 2; FESwap 2; FEDone 2]%nat with
+  | Some f => map (f_pcs f) [0; 1; 2]%nat = [FDone RErr; FDone RErr; FDone ROk] /\ f_reg f = Some [dC] /\
+              f_pool f = None /\ f_gen f = 2%nat
   | None => False
   end.
 Proof. vm_compute. repeat split. Qed.
